@@ -110,9 +110,36 @@ func CheckC03(sc Scenario, o *Outcome) []Finding {
 			key := "delivery:lost-at-close"
 			if sc.Forced != "" || concurrentWithClose(o, missing) {
 				key = "delivery:lost-in-close-race"
+			} else if peerWroteAfterClose(o) {
+				key = "delivery:lost-at-close:peer-still-writing"
 			}
 			add(&fs, false, key, "%d accepted packet(s) never reached the peer, which read to end-of-stream: accepted %d, received %d, first missing %d (outbound capacity %d)",
 				len(missing), len(acc), len(o.PeerGot), missing[0], sc.Cap)
+		}
+	}
+	// a connection that was only ever closed gracefully, with a peer that sent nothing wrong and read late or slowly:
+	// the peer's stream must not break off before every packet accepted before the close has arrived
+	if !o.PeerEOF && o.PeerErr != "" && sc.Peer.Tail == "" && sc.Peer.Read != "never" && len(o.Hangs) == 0 && len(o.Closes) > 0 {
+		graceful, firstCall := true, -1
+		for _, c := range o.Closes {
+			graceful = graceful && c.Graceful && c.Res == "ok"
+			if firstCall < 0 || c.CallAt < firstCall {
+				firstCall = c.CallAt
+			}
+		}
+		missing := []int{}
+		for _, s := range acc {
+			if _, ok := pos[s.Pkt]; !ok && s.Wire > 0 && s.RetAt < firstCall {
+				missing = append(missing, s.Pkt)
+			}
+		}
+		key := "delivery:lost-at-close"
+		if peerWroteAfterClose(o) {
+			key = "delivery:lost-at-close:peer-still-writing"
+		}
+		if graceful && len(missing) > 0 {
+			add(&fs, false, key, "%d packet(s) accepted before the (graceful) Close never reached the peer: its stream broke off with %q after %d of %d accepted packets, first missing %d (peer reads %s, %d inbound frames left unread by this side)",
+				len(missing), o.PeerErr, len(o.PeerGot), len(acc), missing[0], sc.Peer.Read, len(o.PeerSent)-len(o.InbGot))
 		}
 	}
 	// the graceful close returns only after the accepted packets are on the wire
@@ -161,6 +188,27 @@ func CheckC03(sc Scenario, o *Outcome) []Finding {
 		}
 	}
 	return fs
+}
+
+// peerWroteAfterClose: the peer wrote a frame after the first close call had begun. On Linux a frame that arrives
+// after this side has shut down both directions resets the connection, and what the kernel had not yet transmitted
+// of the flushed backlog is destroyed with it: the loss then has this cause and gets a key of its own.
+func peerWroteAfterClose(o *Outcome) bool {
+	first := -1
+	for _, c := range o.Closes {
+		if first < 0 || c.CallAt < first {
+			first = c.CallAt
+		}
+	}
+	if first < 0 {
+		return false
+	}
+	for k := first + 1; k < len(o.Trace); k++ {
+		if strings.HasPrefix(o.Trace[k], "pframe ") {
+			return true
+		}
+	}
+	return false
 }
 
 func concurrentWithClose(o *Outcome, missing []int) bool {
